@@ -43,6 +43,9 @@ def dispatch(prop):
     if prop == "C09":
         import defgraph
         return defgraph.run_c09
+    if prop == "X-jsoncodec":
+        import jsoncodec
+        return jsoncodec.run
     if prop == "C08":
         import conversions
         return conversions.run_c08
